@@ -89,6 +89,8 @@ def class_source(classes, pfx):
             args.append("no_data_loss=True")
         if o.get("no_explicit_cast"):
             args.append("no_explicit_cast=True")
+        if o.get("override"):
+            args.append("override=True")
         if o.get("dfs"):
             args.append("data_first_search=True")
         src.append("class %s%d(Schema):" % (pfx, k))
@@ -353,6 +355,43 @@ def res_within(classes, r, n=0):
     return True
 
 
+def res_within_inherited(classes, r, n=0, anc=()):
+    """the stricter reading: an instance also sits within the limit of every *enclosing* instance's class
+    (`max_depth = d` on a class bounds the nesting of whatever is parsed below it)"""
+    if r is None or "x" in r:
+        return True
+    if "k" in r:
+        lim = limit_of(classes, r["k"])
+        anc2 = anc + ((lim,) if lim is not None else ())
+        if any(n + 1 > m for m in anc2):
+            return False
+        return all(res_within_inherited(classes, x, n + 1, anc2) for _, x in r["f"])
+    for key in ("l", "tu"):
+        if key in r:
+            return all(res_within_inherited(classes, x, n, anc) for x in r[key])
+    if "m" in r:
+        return all(res_within_inherited(classes, x, n, anc) for _, x in r["m"])
+    return True
+
+
+def spec_classes(classes, root):
+    """the limits the specification reads: under a root with `override=True` the root's options replace those of every
+    class parsed below it (options.py:254-258), so its max_depth is *the* limit"""
+    if classes[root].get("opts", {}).get("override"):
+        md = classes[root]["opts"].get("max_depth")
+        return [dict(c, opts=dict({k: v for k, v in c.get("opts", {}).items() if k != "max_depth"},
+                                  **({"max_depth": md} if md is not None else {}))) for c in classes]
+    return classes
+
+
+def mixed_limits(classes):
+    return len({limit_of(classes, k) for k in range(len(classes))}) > 1
+
+
+def has_override(classes):
+    return any(c.get("opts", {}).get("override") for c in classes)
+
+
 def res_depth(r):
     if r is None or "x" in r:
         return 0
@@ -457,8 +496,10 @@ def decl_height(classes):
 
 
 def cost_bound(classes, value):
-    """the polynomial the oracle holds the implementation to: weight · size · (depth+1)²"""
-    return decl_weight(classes) * vsize(value) * (vdepth(value) + 1) ** 2
+    """the polynomial the oracle holds the implementation to where a data class sits under a union (region of the
+    known finding): weight · size · (depth+1)² / 2 — cubic in the nesting depth, what a parser that passed the stage's
+    preferences down into nested classes would need (≈ depth³/6 per leaf) with a wide margin"""
+    return decl_weight(classes) * vsize(value) * (vdepth(value) + 1) ** 2 // 2
 
 
 def data_under_union(t, under=False):
@@ -795,6 +836,8 @@ def gen_val(rng, classes, t, budget, p_bad, ctx):
             ds = [i for i, s in enumerate(reversed(ctx["stack"])) if s == ("data", t["data"])]
             if ds:
                 ctx["refs"] += 1
+                if ctx.get("unread"):
+                    ctx["ref_unread"] = True      # the cycle hangs off a position the conversion never reads
                 return {"ref": rng.choice(ds)}
         if budget <= 0:
             return rng.choice([None, tok(GOOD, rng), {"d": []}, {"l": []}])
@@ -802,6 +845,8 @@ def gen_val(rng, classes, t, budget, p_bad, ctx):
             return rng.choice([None, tok(GOOD, rng), {"l": []}, {"l": [{"l": []}]}, {"l": [tok(GOOD, rng)]}])
         if ctx["cyc"] and ctx["refs"] < 1 and r > 0.93:
             ctx["refs"] += 1
+            if ctx.get("unread"):
+                ctx["ref_unread"] = True
             return rng.choice(list(self_sequences().values()))
         if r > 0.90 and not ctx.get("wrapping"):
             # a single-item (or longer) sequence standing for the mapping: transform_dataclass / to_dict unwrap it
@@ -811,7 +856,10 @@ def gen_val(rng, classes, t, budget, p_bad, ctx):
             levels = 2 if 0.5 <= shape < 0.75 else 1
             ctx["stack"].extend(["wrap"] * levels)
             inner = gen_val(rng, classes, t, budget, p_bad, ctx)
+            # of a sequence standing for a mapping only item 0 is ever read (transform_dataclass / to_dict)
+            ctx["unread"] = ctx.get("unread", 0) + 1
             more = gen_val(rng, classes, t, 0, p_bad, ctx) if shape >= 0.75 else None
+            ctx["unread"] -= 1
             del ctx["stack"][-levels:]
             ctx["wrapping"] = False
             if shape < 0.5:
@@ -870,6 +918,8 @@ def gen_random_case(rng, cyc=False):
     else:
         if cyc:
             return None
+    if not cyc and rng.random() < 0.06:
+        classes = [dict(c, opts=dict(c["opts"], override=True)) if k == root else c for k, c in enumerate(classes)]
     entry = rng.choice(["init", "init", "init", "from", "transform"])
     if v is None or "d" not in v or any(not isinstance(k, str) for k, _ in v["d"]):
         entry = rng.choice(["from", "transform"])
@@ -880,7 +930,8 @@ def gen_random_case(rng, cyc=False):
     if cyc:
         case["cyc"] = True
         # the cycle re-enters the same class through the same fields: with unambiguous unions the reading is forced
-        case["cyc_forced"] = not decl_ambiguous(classes)
+        # … and the cycle must sit where the conversion reads (not behind item 0 of a sequence standing for a mapping)
+        case["cyc_forced"] = not decl_ambiguous(classes) and not ctx.get("ref_unread")
     return case
 
 
@@ -1000,6 +1051,27 @@ def random_steps(rng, classes):
             w, field = tok(GOOD, rng), "zz"
         steps.append({"op": rng.choice(OPS), "cls": kx, "nth": rng.randrange(6), "field": field, "value": w})
     return steps
+
+
+def mixed_limit_case(pos, root_md, inner_md, k, override=False, cyc=False):
+    """a limited root class over a nested recursive class with its own (or no) limit: k levels of the nested class"""
+    ty, wrap = positions(1)[pos]
+    ro = {"max_depth": root_md}
+    if override:
+        ro["override"] = True
+    io_ = {} if inner_md is None else {"max_depth": inner_md}
+    classes = [{"opts": ro, "fields": [["v", "leaf"], ["b", {"data": 1}]]},
+               {"opts": io_, "fields": [["v", "leaf"], ["nx", ty]]}]
+    if cyc:
+        n = len(_containers_between(wrap))
+        v = {"d": [["b", {"d": [["v", {"t": 0}], ["nx", wrap({"ref": n})]]}]]}
+        return {"classes": classes, "root": 0, "entry": "init", "value": v, "cyc": True, "cyc_forced": True,
+                "fam": "cyc/unlimited-below-limited-root"}
+    w = {"d": [["v", {"t": 0}]]}
+    for _ in range(k - 1):
+        w = {"d": [["v", {"t": 0}], ["nx", wrap(w)]]}
+    return {"classes": classes, "root": 0, "entry": "init", "value": {"d": [["v", {"t": 0}], ["b", w]]},
+            "fam": "mixed-limits/" + ("override/" if override else "") + pos}
 
 
 def exp_case(k, pos="optional", md=None):
@@ -1149,7 +1221,7 @@ class C18(Check):
     props_modules = ["Utv.Props.C18"]
     driver = "C18"
     impl = "harness.c18:impl"
-    case_timeout = 15.0
+    case_timeout = 25.0
     rule = ("declarations: 1-3 (mutually) recursive Schema classes built from generated source, fields over "
             "leaf | None | data class | List | Tuple[..., ...] | Dict[str|int, ·] | Union, per-class max_depth in {None,1..5}, "
             "no_data_loss / no_explicit_cast / data_first_search; inputs: (a) the position x depth x max_depth matrix "
@@ -1183,6 +1255,9 @@ class C18(Check):
             out += [chain_case(p, 1, md, cyc=True) for p in POS_NAMES if p != "wrapped-scalar" for md in (1, 3)]
             out += [exp_case(k) for k in range(1, 8)]
             out += [exp_case(k, "list-opt-0") for k in (2, 4, 6)]
+            # a limited root over a nested class with its own / no limit (known finding limit-not-inherited), and with override
+            out += [mixed_limit_case(p, rmd, imd, k, ov) for p in ("direct", "optional", "list-0", "dict-key")
+                    for rmd, imd in ((1, None), (2, None), (2, 4), (3, 1)) for k in (1, 2, 4) for ov in (False, True)]
             # second steps: assignment (attribute / item / update / |=) on the instance at every level of a parsed tree
             out += [assign_case(p, k, md, lv, m, OPS[(k + lv + m + i) % 4]) for i, p in enumerate(POS_NAMES)
                     for md, k in ((3, 3), (3, 2), (2, 2), (None, 3)) for lv in range(1, k + 1) for m in (0, 1, 2)]
@@ -1204,6 +1279,9 @@ class C18(Check):
                     for m, e in ((1, "init"), (2, "transform"), (3, "init"))]
             out += [wrapped_cycle_case(p, md, tw) for p in POS_NAMES for md in (1, 3) for tw in (False, True)]
         elif tier == "thorough":
+            out += [mixed_limit_case(p, rmd, imd, k, ov) for p in POS_NAMES for rmd in (1, 2, 3) for imd in (None, 1, 2, 4)
+                    for k in (1, 2, 3, 5) for ov in (False, True)]
+            out += [mixed_limit_case(p, 3, None, 1, cyc=True) for p in ("optional", "list-opt-0")]
             out += [assign_case(p, k, md, lv, m, op, kind, "init", mode) for p in POS_NAMES for md in (1, 2, 3, 4, None)
                     for k in (1, 2, 3, 4) if md is None or k <= md for lv in range(1, k + 1) for m in (0, 1, 2, 3)
                     for op, kind, mode in (("setattr", GOOD, 0), ("setitem", GOOD, 1), ("update", BAD, 0), ("ior", LOSSY, 2))]
@@ -1252,6 +1330,10 @@ class C18(Check):
         v = self.model_line(case)["value"]          # normalised; for a cyclic input the unfolding the model sees
         if case.get("entry") == "from" and v is not None and "l" in v:
             return False        # K.__from__(sequence) skips transform_dataclass: not modelled
+        if case.get("fam") == "cyc/unlimited-below-limited-root":
+            return False        # a cycle through a class without limit is not a finite unfolding: the model cannot represent it
+        if has_override(case["classes"]):
+            return False        # Options(override=True): the root's options replace the nested classes' own: not modelled
         return modelled(case["classes"], {"data": case["root"]}, v)
 
     # ---- model vs implementation ----
@@ -1266,11 +1348,11 @@ class C18(Check):
     def compare(self, case, io, mo):
         if not isinstance(mo, dict) or "lim" not in mo:
             return f"driver: {mo}"
-        if not isinstance(io, dict) or "lim" not in io:
-            return f"impl: {io}"
         if not self.in_fragment(case):
             self.stats["outside_fragment"] = self.stats.get("outside_fragment", 0) + 1
             return None
+        if not isinstance(io, dict) or "lim" not in io:
+            return f"impl: {io}"
         self.stats["compared"] = self.stats.get("compared", 0) + 1
         if case.get("cyc"):
             self.stats["cyclic_compared"] = self.stats.get("cyclic_compared", 0) + 1
@@ -1309,11 +1391,15 @@ class C18(Check):
             return f"cost: the parse {what} on a finite input of size {vsize(norm(case['value']))}"
         if not isinstance(io, dict) or "lim" not in io:
             return f"no verdict from the implementation: {io}"
-        classes, lim, unl = case["classes"], io["lim"], io.get("unl")
+        classes, lim, unl = spec_classes(case["classes"], case["root"]), io["lim"], io.get("unl")
         # -- depth limit exact --
         if "ok" in lim and not res_within(classes, lim["ok"]):
             return ("accepted a value whose data-class nesting exceeds max_depth "
                     f"(result nesting {res_depth(lim['ok'])}, limits {[limit_of(classes, k) for k in range(len(classes))]})")
+        if "ok" in lim and not res_within_inherited(classes, lim["ok"]):
+            return ("inherited-limit: accepted a value in which an instance sits deeper than the max_depth of an enclosing class "
+                    f"allows (result nesting {res_depth(lim['ok'])}, limits {[limit_of(classes, k) for k in range(len(classes))]}): "
+                    "a class' limit is not applied to nested classes that bring their own options")
         if case.get("cyc_forced") and "ok" in lim:
             return "a cyclic input was accepted"
         if case.get("cyc") and "escape" in lim:
@@ -1329,7 +1415,7 @@ class C18(Check):
                 return "max_depth changed the result of an accepted value"
         # -- second steps: assignments on instances taken from the parsed tree, re-parses of its sub-values --
         for st, ist in zip(case.get("steps") or [], io.get("steps") or []):
-            why = self.spec_step(classes, st, ist)
+            why = self.spec_step(spec_classes(case["classes"], st["cls"]), st, ist)
             if why:
                 return why
         # -- cost bounded --
@@ -1345,9 +1431,14 @@ class C18(Check):
     def cost_verdict(classes, probe, o, which):
         if o is None:
             return None
-        if decl_data_under_union(classes):
+        if has_override(classes):
+            # under override a union stage cannot tighten the preferences (`__and__` returns the overriding options):
+            # the three stages repeat per union level of the *declaration* — a constant of the declaration
+            bound = cost_bound(classes, probe) * 3 ** decl_height(classes)
+            formula = "3^height*weight*size*(depth+1)^2"
+        elif decl_data_under_union(classes):
             # region of the known finding: a generous polynomial
-            bound, formula = cost_bound(classes, probe), "weight*size*(depth+1)^2"
+            bound, formula = cost_bound(classes, probe), "weight*size*(depth+1)^2/2"
         else:
             # no union restarts its stages below it: the Lean theorem C18_cost_poly_partial gives weight*size for the
             # unchanged code; the oracle allows twice that
@@ -1363,8 +1454,10 @@ class C18(Check):
             return None
         where = "an instance taken out of the parsed tree" if lim.get("nested") else "a directly constructed instance"
         if st["op"] == "reparse":
-            if lim.get("ok") is not True:
-                return f"a sub-value taken out of an accepted tree is not accepted unchanged when parsed on its own ({_short(lim)})"
+            # a sub-value of an accepted tree has nesting depth <= d: parsed on its own it must not be refused for its
+            # depth (whether parsing a *result* again gives the same result is another property's business)
+            if lim.get("err") == "depth" or "escape" in lim:
+                return f"a sub-value taken out of an accepted tree is refused for its depth when parsed on its own ({_short(lim)})"
             return None
         fname = step_field(classes, st)
         limits = [limit_of(classes, k) for k in range(len(classes))]
@@ -1399,6 +1492,10 @@ class C18(Check):
     def classify(self, case, io, why):
         if why.startswith("cost:") and decl_data_under_union(case["classes"]):
             return "union-retries-exponential"
+        if why.startswith("inherited-limit:") and not has_override(case["classes"]) and mixed_limits(case["classes"]):
+            return "limit-not-inherited"
+        if why.startswith("cyclic input not rejected") and case.get("fam") == "cyc/unlimited-below-limited-root":
+            return "limit-not-inherited"
         return None
 
     def neighbours(self, case, rng):
@@ -1445,6 +1542,8 @@ def _short(o):
     if o is None:
         return "None"
     if "ok" in o:
+        if isinstance(o["ok"], bool):
+            return f"ok(same={o['ok']}, cost {o.get('cost')})"
         return f"ok(nesting {res_depth(o['ok'])}, cost {o.get('cost')})"
     if "err" in o:
         return f"{o['err']}-error(cost {o.get('cost')})"
